@@ -437,7 +437,7 @@ pub fn main(mut chk: Check) -> ! {
         chk.replay_one::<Case, _>("precedence", &p, oracle);
     }
     let t = chk.tier();
-    chk.run("precedence", t.pick(2_500, 60_000), case_strategy(), oracle);
+    chk.run("precedence", t.pick(6_000, 60_000), case_strategy(), oracle);
     let _ = std::fs::remove_dir_all("/verif/.work/c18");
     chk.finish()
 }
